@@ -25,6 +25,8 @@ def run(n=200, seed=12345, verbose=True):
             Ma, Mb = np.array(R.matrix(k, a)), np.array(R.matrix(k, b))
             Mab = np.array(R.matrix(k, R.vals(R.oplus(k, a, b))))
             worst["hamilton_vs_matrix"] = max(worst["hamilton_vs_matrix"], float(np.abs(Ma @ Mb - Mab).max()) / (1 + np.abs(Mab).max()))
+            d_om = np.abs(np.array(R.vals(R.ominus(k, a, b))) - np.array(R.vals(R.ominus_via_inverse(k, a, b)))).max()
+            worst["group_axioms"] = max(worst["group_axioms"], float(d_om) / 50)
             # axioms
             e = R.identity(k)
             ai = R.vals(R.inv(k, a))
